@@ -780,8 +780,8 @@ func Spec() *mon.Spec {
 			"which constructs add a stack trace entry (lambda call, each, named function call, eval: yes; if/for/while/try/output capture: no) is taken from observed behaviour of the unchanged tree, consistent with 'a single traceback entry' per function call",
 		},
 		Phases: []mon.Phase{
-			{Name: "contexts", Quick: 6000, Thorough: 90000, Run: runContexts},
-			{Name: "errors", Quick: 6000, Thorough: 90000, Run: runErrors},
+			{Name: "contexts", Quick: 12000, Thorough: 90000, Run: runContexts},
+			{Name: "errors", Quick: 12000, Thorough: 90000, Run: runErrors},
 		},
 		Floors: map[string]int{"distinct_nontrivial": 2500, "contexts_checked": 300000, "ctx_empty": 70000, "ctx_ends_after_newline": 70000, "ctx_only_newline": 15000,
 			"ctx_multi_line": 120000, "ctx_multibyte_before_start": 70000, "ctx_at_eof": 25000, "ctx_not_first_line": 150000, "sources_all_ranges": 400,
